@@ -47,7 +47,8 @@ def cases(tier, seed, phase):
                    'queue': rng.choice(['250', '250', '250', '451', '550', '452r'])}
             if cfg['ehlo500']:
                 cfg.update(pipelining=False, eightbit=False, smtputf8=False, size=None)
-            utf8_ok = cfg['smtputf8'] or transport == 'http'
+            # without SMTPUTF8 a non-ASCII address cannot be sent: the relay must refuse (553), never deliver a changed address
+            utf8_ok = cfg['smtputf8'] or transport == 'http' or rng.random() < 0.25
             msgs = []
             for _ in range(rng.choice([1, 1, 2])):
                 sender = '' if rng.random() < 0.15 else gen_addr(rng, utf8_ok)
@@ -417,6 +418,10 @@ def run_hop(case, model):
         for s, m in zip(sent, case['msgs']):
             size = None          # the relay client does not pass the message size to Client.mailfrom
             enc = 'utf-8' if cfg['smtputf8'] and not cfg['ehlo500'] else 'ascii'
+            try:
+                (s['sender'] + ''.join(s['rcpts'])).encode(enc)
+            except UnicodeError:
+                continue            # nothing of this message goes on the wire
             ml = model.ask('wire mail %s %s' % (s['sender'].encode(enc).hex() or '-', size or '-'))
             want_lines.append(bytes.fromhex(ml) + b'\r\n')
             for r in s['rcpts']:
@@ -528,7 +533,11 @@ def run_unit(case, model):
             line = b''.join(sock.sent)
         except UnicodeError:
             line = None
-        if line is not None:
+        ascii_ok = all(ord(ch) < 128 for ch in case['addr'])
+        if line is not None and not case['utf8'] and not ascii_ok:
+            hits.append(hit('c06.address-changed-on-the-wire', 'a non-ASCII address was put on the wire of a session without SMTPUTF8 (it cannot be the same address)',
+                            observed=line.decode('latin-1'), expected=case['addr']))
+        if line is not None and (case['utf8'] or ascii_ok):
             enc = 'utf-8' if case['utf8'] else 'ascii'
             mb = model.ask('wire mail %s %s' % (case['addr'].encode(enc).hex() or '-', '-' if case['size'] is None else str(case['size'])))
             if bytes.fromhex(mb) + b'\r\n' != line:
